@@ -13,6 +13,7 @@ import (
 	"fmt"
 	"math/big"
 	"sort"
+	"strings"
 	"sync"
 	"time"
 
@@ -49,6 +50,11 @@ type E2EScenario struct {
 	Master     int       `json:"master"`
 	Chunk      int       `json:"chunk"`    // headers per Schedule call
 	PauseMS    int       `json:"pause_ms"` // pause between Schedule calls
+	// a second sync cycle on the same Downloader/queue: the first cycle is cancelled
+	// after CutMS ms (0 = runs to its end), the second starts SecondBack blocks BELOW
+	// what the first one handed to the importer (0 = no second cycle)
+	SecondBack int `json:"second_back,omitempty"`
+	CutMS      int `json:"cut_ms,omitempty"`
 }
 
 // ---- stub chain -----------------------------------------------------------------
@@ -210,87 +216,142 @@ func runE2E(sc *E2EScenario) e2eResult {
 		ids[i] = fmt.Sprintf("e%02d-%s", i, pkNames[ps.Kind])
 		d.RegisterPeer(ids[i], &e2ePeer{id: ids[i], spec: ps, env: env, rng: vf.NewRng(ps.Seed + 1)})
 	}
-	e2eQueueMu.Lock()
-	d.VerifC18BeginSync(ids[sc.Master], sc.Origin, sc.CacheItems)
-	e2eQueueMu.Unlock()
-	q := d.VerifC18Queue()
-	fetchErr := make(chan error, 1)
-	procErr := make(chan error, 1)
-	go func() { fetchErr <- d.VerifC18FetchBodies() }()
-	go func() { procErr <- d.VerifC18ProcessFullSyncContent(sc.Origin) }()
-	go func() { // what processHeaders does with the header stream
-		from := sc.Origin + 1
-		for i := 0; i < n; i += sc.Chunk {
-			j := i + sc.Chunk
-			if j > n {
-				j = n
-			}
-			q.Schedule(headers[i:j], from)
-			from += uint64(j - i)
-			d.VerifC18WakeBodies(true)
-			time.Sleep(time.Duration(sc.PauseMS) * time.Millisecond)
-		}
-		d.VerifC18WakeBodies(false)
-	}()
-	var err error
-	timedOut := false
-	limit := 12 * time.Second
-	if k := sc.Peers[sc.Master].Kind; k != pkHonest && k != pkTruncating {
-		limit = 1500 * time.Millisecond // nothing is expected of such a run but safety
-	}
-	select {
-	case err = <-fetchErr:
-	case <-time.After(limit):
-		timedOut = true
-		d.Cancel()
-		err = <-fetchErr
-	}
-	q.Close()
-	select {
-	case <-procErr:
-	case <-time.After(5 * time.Second):
-		hit("processFullSyncContent does not return after the queue was closed")
-	}
-	d.Cancel()
-
-	// ---- importer-side oracle
-	chain.mu.Lock()
-	ins := append([]*types.Block{}, chain.inserted...)
-	chain.mu.Unlock()
-	res.inserted = len(ins)
-	for i, b := range ins {
-		want := sc.Origin + 1 + uint64(i)
-		if b.NumberU64() != want {
-			hit(fmt.Sprintf("importer received block %d at position %d, expected %d", b.NumberU64(), i, want))
-			break
-		}
-		if i >= n || b.Hash() != headers[i].Hash() {
-			hit(fmt.Sprintf("importer received a block %d that is not the scheduled header", want))
-			break
-		}
-		if types.DeriveSha(b.Transactions()) != b.Header().TxHash {
-			hit(fmt.Sprintf("importer received block %d with a transaction list that does not match its transaction root", want))
-			break
-		}
-	}
-	env.mu.Lock()
-	master := ids[sc.Master]
 	mk := sc.Peers[sc.Master].Kind
-	masterGone := env.dropped[master] || env.left[master]
-	res.drops = len(env.dropped)
-	env.mu.Unlock()
-	switch {
-	case mk != pkHonest && mk != pkTruncating:
-		res.class = "e2e_no_honest_master_" + errName(err, timedOut)
-	case masterGone:
-		res.class = "e2e_inconclusive_honest_master_expired_by_timing"
-	case err == nil && !timedOut && len(ins) == n:
-		res.class = "e2e_completed"
-	default:
-		res.class = "e2e_FAILED_" + errName(err, timedOut)
-		hit(fmt.Sprintf("download does not complete although the honest %s master peer stayed connected and answered every request: %d of %d blocks imported, fetchBodies returned %s",
-			pkNames[mk], len(ins), n, errName(err, timedOut)))
+	master := ids[sc.Master]
+	// one sync cycle over headers[from:], origin = number of headers[from] - 1
+	runCycle := func(from int, cutMS int) (error, bool, []*types.Block) {
+		origin := sc.Origin + uint64(from)
+		chain.mu.Lock()
+		chain.inserted = nil
+		chain.mu.Unlock()
+		e2eQueueMu.Lock()
+		d.VerifC18BeginSync(master, origin, sc.CacheItems)
+		e2eQueueMu.Unlock()
+		q := d.VerifC18Queue()
+		fetchErr := make(chan error, 1)
+		procErr := make(chan error, 1)
+		feedDone := make(chan struct{})
+		go func() { fetchErr <- d.VerifC18FetchBodies() }()
+		go func() { procErr <- d.VerifC18ProcessFullSyncContent(origin) }()
+		go func() { // what processHeaders does with the header stream
+			defer close(feedDone)
+			next := origin + 1
+			for i := from; i < n; i += sc.Chunk {
+				j := i + sc.Chunk
+				if j > n {
+					j = n
+				}
+				q.Schedule(headers[i:j], next)
+				next += uint64(j - i)
+				d.VerifC18WakeBodies(true)
+				time.Sleep(time.Duration(sc.PauseMS) * time.Millisecond)
+			}
+			d.VerifC18WakeBodies(false)
+		}()
+		var err error
+		timedOut := false
+		limit := 12 * time.Second
+		if mk != pkHonest && mk != pkTruncating {
+			limit = 1500 * time.Millisecond // nothing is expected of such a run but safety
+		}
+		if cutMS > 0 {
+			limit = time.Duration(cutMS) * time.Millisecond
+		}
+		select {
+		case err = <-fetchErr:
+		case <-time.After(limit):
+			timedOut = true
+			d.Cancel()
+			err = <-fetchErr
+		}
+		q.Close()
+		select {
+		case <-procErr:
+		case <-time.After(5 * time.Second):
+			hit("processFullSyncContent does not return after the queue was closed")
+		}
+		d.Cancel()
+		<-feedDone
+		chain.mu.Lock()
+		ins := append([]*types.Block{}, chain.inserted...)
+		chain.mu.Unlock()
+		// importer-side safety: ascending, gap free from this cycle's origin, the scheduled headers, matching bodies
+		for i, b := range ins {
+			want := origin + 1 + uint64(i)
+			if b.NumberU64() != want {
+				hit(fmt.Sprintf("importer received block %d at position %d of the cycle from origin %d, expected %d", b.NumberU64(), i, origin, want))
+				break
+			}
+			if from+i >= n || b.Hash() != headers[from+i].Hash() {
+				hit(fmt.Sprintf("importer received a block %d that is not the scheduled header", want))
+				break
+			}
+			if types.DeriveSha(b.Transactions()) != b.Header().TxHash {
+				hit(fmt.Sprintf("importer received block %d with a transaction list that does not match its transaction root", want))
+				break
+			}
+		}
+		return err, timedOut, ins
 	}
+	judge := func(what string, from int, err error, timedOut bool, ins []*types.Block) string {
+		env.mu.Lock()
+		masterGone := env.dropped[master] || env.left[master]
+		res.drops = len(env.dropped)
+		env.mu.Unlock()
+		switch {
+		case mk != pkHonest && mk != pkTruncating:
+			return "e2e_no_honest_master_" + errName(err, timedOut)
+		case masterGone:
+			return "e2e_inconclusive_honest_master_expired_by_timing"
+		case err == nil && !timedOut && len(ins) == n-from:
+			return "e2e_completed"
+		}
+		hit(fmt.Sprintf("%sdownload does not complete although the honest %s master peer stayed connected and answered every request: %d of %d blocks imported, fetchBodies returned %s",
+			what, pkNames[mk], len(ins), n-from, errName(err, timedOut)))
+		return "e2e_FAILED_" + errName(err, timedOut)
+	}
+	err, timedOut, ins := runCycle(0, sc.CutMS)
+	res.inserted = len(ins)
+	if sc.SecondBack == 0 {
+		res.class = judge("", 0, err, timedOut, ins)
+		return res
+	}
+	// second cycle on the same queue object, from below what the first one handed out
+	if sc.CutMS == 0 {
+		if c := judge("first cycle: ", 0, err, timedOut, ins); c != "e2e_completed" && c != "e2e_no_honest_master_"+errName(err, timedOut) {
+			res.class = c
+			return res
+		}
+	}
+	from2 := len(ins) - sc.SecondBack
+	if from2 < 0 {
+		from2 = 0
+	}
+	if from2 >= n {
+		from2 = n - 1
+	}
+	// peers that were dropped or left reconnect
+	env.mu.Lock()
+	for i, ps := range sc.Peers {
+		if env.dropped[ids[i]] || env.left[ids[i]] {
+			delete(env.dropped, ids[i])
+			delete(env.left, ids[i])
+			sp := ps
+			if sp.Kind == pkDisconnecting {
+				sp.Param += 2
+			}
+			d.RegisterPeer(ids[i], &e2ePeer{id: ids[i], spec: sp, env: env, rng: vf.NewRng(ps.Seed + 7)})
+		}
+	}
+	env.mu.Unlock()
+	time.Sleep(5 * time.Millisecond)
+	err2, timedOut2, ins2 := runCycle(from2, 0)
+	res.inserted += len(ins2)
+	c := judge(fmt.Sprintf("second sync cycle (origin %d, the first cycle had handed out up to block %d): ", sc.Origin+uint64(from2), sc.Origin+uint64(len(ins))), from2, err2, timedOut2, ins2)
+	if strings.HasPrefix(c, "e2e_") {
+		c = "e2e_two_cycles_" + strings.TrimPrefix(c, "e2e_")
+	}
+	res.class = c
 	return res
 }
 
@@ -345,6 +406,12 @@ func genE2E(rng *vf.Rng) *E2EScenario {
 			if sc.Peers[i].Kind == pkHonest || sc.Peers[i].Kind == pkTruncating {
 				sc.Peers[i].Kind = pkStalling
 			}
+		}
+	}
+	if rng.Chance(35) { // two sync cycles, the second from below what the first handed out
+		sc.SecondBack = 1 + rng.Intn(6)
+		if rng.Chance(50) {
+			sc.CutMS = 5 + rng.Intn(60)
 		}
 	}
 	return sc
